@@ -135,7 +135,18 @@ def node_of(x, with_oid=False):
         return {"k": "opaque", "tag": "None"}
     if isinstance(x, str):
         return {"k": "opaque", "tag": f"str:{x}"}
+    if hasattr(x, "__dict__") and not isinstance(x, type):
+        # a component fixed to an instance of a user class: opaque for the model, but the tag carries the
+        # whole content so that the instance built from the model can be compared with it (inst_diff)
+        return {"k": "opaque", "tag": fixed_tag(inst_of(x))}
     return {"k": "opaque", "tag": f"py:{type(x).__name__}"}
+
+
+def fixed_tag(inst):
+    import hashlib
+    import json as _json
+
+    return "py:%s#%s" % (inst.get("cls", ""), hashlib.sha1(_json.dumps(canon_inst(inst), sort_keys=True).encode()).hexdigest()[:16])
 
 
 def ctor_defaults(model):
@@ -262,6 +273,11 @@ def inst_diff(a, b, ulps=0, path=()):
     from common import h2f, ulp_diff
 
     if a.get("k") != b.get("k"):
+        # a fixed user-class instance is opaque on the model side; its tag is a digest of its content
+        for o, q in ((a, b), (b, a)):
+            if o.get("k") == "obj" and q.get("k") == "opaque" and "#" in q.get("tag", ""):
+                t = fixed_tag(o)
+                return None if t == q["tag"] else (path, t if o is a else q["tag"], q["tag"] if o is a else t)
         return (path, a.get("k"), b.get("k"))
     k = a["k"]
     if k == "num":
